@@ -28,7 +28,7 @@ GetClause(e) ==
 HasClause(e) ==
   IF e.res = "true" /\ last'.res # "tmpl" THEN "res"
   ELSE IF e.res = "false" /\ last'.res \notin {"toplevel_exc", "lookup_exc"} THEN "res"
-  ELSE IF e.res = "compile_error" /\ last'.res # "compile_error" THEN "res"
+  ELSE IF e.res \in {"compile_error", "os_error"} /\ last'.res # e.res THEN "res"
   ELSE IF SeqToSet(e.keys) # Cached(coll') THEN "keys"
   ELSE IF e.built # built' THEN "built"
   ELSE ""
@@ -50,7 +50,7 @@ TStep ==
   /\ verdict = "run" /\ l <= Len(Ev) /\ UNCHANGED tr
   /\ LET e == Ev[l] IN
      \/ /\ e.ev = "tick" /\ Tick /\ Finish("")
-     \/ /\ e.ev = "write" /\ WriteFile(e.d, e.u, e.ok)
+     \/ /\ e.ev = "write" /\ WriteFile(e.d, e.u, e.kind)
         /\ Finish(IF fs'[e.d][e.u].ver = e.ver /\ fs'[e.d][e.u].mt = e.mt THEN "" ELSE "write-args")
      \/ /\ e.ev = "delete" /\ DeleteFile(e.d, e.u) /\ Finish("")
      \/ /\ e.ev = "get" /\ Get(e.u) /\ Finish(GetClause(e))
